@@ -97,6 +97,9 @@ pub struct TypeSpec {
     pub shared_arg: Option<&'static str>,
 }
 
+/// marker value of `TypeSpec::shared_arg`: every trait in its own stacked `#[derive_ex(..)]` attribute
+pub const STACKED: &str = "@stacked";
+
 pub const VNAMES: [&str; 5] = ["A", "B", "C", "D", "E"];
 
 impl TypeSpec {
@@ -182,7 +185,7 @@ impl TypeSpec {
 
 pub fn proj(attr: Tr, style: KeyStyle, v: u8) -> u8 {
     match style {
-        KeyStyle::Consistent => v % 3,
+        KeyStyle::Consistent | KeyStyle::ConsistentPartial => v % 3,
         KeyStyle::Distinct => match attr {
             Ord => v % 2,
             PartialOrd => v % 3,
@@ -202,7 +205,7 @@ pub fn field_pc(t: Tr, f: &FieldSpec, style: KeyStyle, a: u8, b: u8) -> Option<O
         Sel::Key(at) | Sel::By(at) => {
             let (pa, pb) = (proj(at, style, a), proj(at, style, b));
             // the distinct `partial_ord` key / by is partial: projection 2 is incomparable (NaN-like)
-            if at == PartialOrd && style == KeyStyle::Distinct && (pa == 2 || pb == 2) {
+            if (at == PartialOrd && style == KeyStyle::Distinct || style == KeyStyle::ConsistentPartial) && (pa == 2 || pb == 2) {
                 None
             } else {
                 Some(pa.cmp(&pb))
@@ -325,10 +328,12 @@ pub fn expander_accepts(entry: Entry, derived: &[Tr], item: &str) -> Result<(), 
 pub fn program(ts: &TypeSpec, derived: &[Tr], entry: Entry) -> String {
     let item = ts.item();
     let list = match ts.shared_arg {
-        Some(a) => format!("{}, {}", names(derived).join(", "), a),
-        None => names(derived).join(", "),
+        Some(a) if a != STACKED => format!("{}, {}", names(derived).join(", "), a),
+        _ => names(derived).join(", "),
     };
     let head = match entry {
+        // one `#[derive_ex(Trait)]` attribute per trait, stacked on the item
+        Entry::Attr if ts.shared_arg == Some(STACKED) => names(derived).iter().map(|t| format!("#[derive_ex({t})]")).collect::<Vec<_>>().join("\n"),
         Entry::Attr => format!("#[derive_ex({list})]"),
         Entry::Derive => format!("#[derive(Ex)]\n#[derive_ex({list})]"),
     };
